@@ -60,7 +60,7 @@ func (o *ExpressionOptimizer) tryReorderBinaryOp(e *BinaryOpExpr) {
 
 	if !leftIsValue && leftIsOp && rightIsValue && !rightIsOp {
 		// fmt.Println("DEBUG:", e)
-		if leftOpExpr.Op == e.Op {
+		if leftOpExpr.Op == e.Op && canReassociate(e.Op, leftOpExpr.Left, leftOpExpr.Right, e.Right) {
 			switch rexpr := leftOpExpr.Right.(type) {
 			case *StringExpr, *NumberExpr, *FloatExpr:
 				// (ANY op VALUE) op VALUE
@@ -76,6 +76,42 @@ func (o *ExpressionOptimizer) tryReorderBinaryOp(e *BinaryOpExpr) {
 		// fmt.Println("DEBUG:", e)
 	}
 	return
+}
+
+// canReassociate tells whether (x op c1) op c2 and x op (c1 op c2) have the
+// same value whatever x evaluates to. That holds for text concatenation and
+// for (wrapping) integer arithmetic when all three operands can only be
+// integers. It does not hold for floats, whose + and * are not associative,
+// nor when integers and floats mix: the conversion to float then happens at
+// a different point of the chain.
+func canReassociate(op Operator, x Expression, c1 Expression, c2 Expression) bool {
+	if op == Add && x.ReturnType() == TSTR && c1.ReturnType() == TSTR {
+		return true
+	}
+	return isIntegerExpr(x) && isIntegerExpr(c1) && isIntegerExpr(c2)
+}
+
+// isIntegerExpr tells whether the expression can only evaluate to an integer
+func isIntegerExpr(expr Expression) bool {
+	switch e := expr.(type) {
+	case *NumberExpr:
+		return true
+	case *BinaryOpExpr:
+		switch e.Op {
+		case Add, Sub, Mul, Div:
+			return isIntegerExpr(e.Left) && isIntegerExpr(e.Right)
+		}
+	case *FunctionCallExpr:
+		fname, err := GetFuncNameFromExpr(e)
+		if err != nil {
+			return false
+		}
+		switch fname {
+		case "int", "strlen", "len":
+			return true
+		}
+	}
+	return false
 }
 
 func isBinaryOpExprAllValue(expr *BinaryOpExpr, op Operator) bool {
